@@ -89,6 +89,14 @@ Theorem C11_toomuch_before_any_write : forallb (fun s => snd s) toomuch_sites = 
 Proof. vm_compute. reflexivity. Qed.
 Print Assumptions C11_toomuch_before_any_write.
 
+(* the modelling assumption "a handler commits nothing before it succeeds", checked on the source: the
+   functions of package rockredis in which batch writes or explicit error returns follow a commit of the
+   batch (go/ast, regenerated). The one exception is BitSetV2, whose conversion of an old-format value is
+   committed before the bit is set; since fix e3d0c54 the key is validated before that conversion. *)
+Theorem C11_commit_only_at_success : forallb (fun f => gname_eqb f "BitSetV2") commit_then_write_sites = true.
+Proof. vm_compute. reflexivity. Qed.
+Print Assumptions C11_commit_only_at_success.
+
 (* ---------- non-vacuity ---------- *)
 Definition no_float : bytes -> option N := fun _ => None.
 (* "set vns:t:k v" is accepted and proposed as [set; t:k; v] ... *)
